@@ -79,8 +79,12 @@ class BufferedByteReceiveStream(ByteReceiveStream):
             return await self.receive_stream.receive(max_bytes)
         else:
             # With a bytes-oriented object stream, we need to handle any surplus bytes
-            # we get from the receive() call
-            chunk = await self.receive_stream.receive()
+            # we get from the receive() call (and skip empty items, as a byte stream
+            # should never return an empty bytes object)
+            chunk = b""
+            while not chunk:
+                chunk = await self.receive_stream.receive()
+
             if len(chunk) > max_bytes:
                 # Save the surplus bytes in the buffer
                 self._buffer.extend(chunk[max_bytes:])
